@@ -282,17 +282,7 @@ class HttpProxyPlugin(HttpProtocolHandlerPlugin):
             # tls interception is enabled
             if raw is not None:
                 if not self.request.is_https_tunnel or self._tls_intercept_enabled:
-                    if self.response.is_complete:
-                        self.handle_pipeline_response(raw)
-                    else:
-                        self.response.parse(raw)
-                        self.emit_response_events(len(raw))
-                        # Bytes following a complete response belong
-                        # to the next (pipelined) response
-                        if self.response.is_complete and self.response.buffer:
-                            remainder = self.response.buffer
-                            self.response.buffer = None
-                            self.handle_pipeline_response(remainder)
+                    self._parse_upstream_response(raw)
                 else:
                     self.response.total_size += len(raw)
                 # queue raw data for client
@@ -559,6 +549,27 @@ class HttpProxyPlugin(HttpProtocolHandlerPlugin):
                     ),
                 )
         return False
+
+    def _parse_upstream_response(self, raw: memoryview) -> None:
+        """Response parsing only serves access logs and events.  Whatever
+        upstream sent is relayed to the client as is, hence a response
+        that our parser cannot make sense of must not abort the relay."""
+        try:
+            if self.response.is_complete:
+                self.handle_pipeline_response(raw)
+            else:
+                self.response.parse(raw)
+                self.emit_response_events(len(raw))
+                # Bytes following a complete response belong
+                # to the next (pipelined) response
+                if self.response.is_complete and self.response.buffer:
+                    remainder = self.response.buffer
+                    self.response.buffer = None
+                    self.handle_pipeline_response(remainder)
+        except Exception as e:
+            logger.warning(
+                'Unable to parse response from upstream, relaying as is: %r' % e,
+            )
 
     def handle_pipeline_response(self, raw: memoryview) -> None:
         while len(raw) > 0:
